@@ -10,6 +10,8 @@ C19.DCL  inside that region a test of the bootstrapped state dominates the call 
          on the lock does not bootstrap again)
 C19.NEW  the __new__ wrapper tests its marker and installs/removes __new__ only inside the lock, after
          triggering bootstrap and before delegating
+C19.PUB  the metadata object is not written after bootstrap stores it on the class (publication is the last
+         step of assembly; only method registration follows)
 C19.ORD  under the lock only the class's bases can be triggered (no foreign __spec_class__ lookups)
 C19.DIS  method descriptors dissolve onto the class they were registered on, storing a value that
          depends only on the descriptor (idempotent unlocked write)
@@ -153,6 +155,13 @@ def check(ctx, rep: Report):
         first_spec = min((s.lineno for s in w.body if "__spec_class__" in ast.unparse(s)), default=None)
         if first_spec is None or first_spec > lw.lineno:
             bad.append("bootstrap is not triggered before taking the lock")
+        for x in ast.walk(w):
+            if isinstance(x, ast.Compare) and "object.__new__" in ast.unparse(x):
+                other = [s for s in [x.left] + list(x.comparators) if ast.unparse(s) != "object.__new__"]
+                for s in other:
+                    t = ast.unparse(s)
+                    if "__base__" in t or "__bases__" in t:
+                        bad.append(f"the inherited __new__ is looked up through `{t}` (one base) instead of the MRO: with multiple inheritance the __new__ of another base is bypassed / object.__new__ receives constructor arguments")
         rets = [s for s in w.body if isinstance(s, ast.Return)]
         if not rets or rets[-1].lineno < lw.end_lineno or "spec_cls.__new__(cls" not in ast.unparse(rets[-1]):
             bad.append("delegation to the real __new__ does not follow the locked region")
@@ -177,6 +186,41 @@ def check(ctx, rep: Report):
     rep.oblige("C19.ORD", "parents first", ok)
     if not ok:
         rep.violate(Violation("C19.ORD", "C19.ORD|parents", "bootstrap no longer triggers the bootstrap of its bases first (child -> parent order)", f"{rel}:{bs.node.lineno}", "spec_class.bootstrap"))
+
+    # ---- PUB: typestate "assembled -> published": once the metadata object is stored on the class (readers that only
+    # look at cls.__spec_class__ take it without the lock) nothing may write to it or to the Attr objects it holds
+    rep.rules["C19.PUB"] = "no write to the metadata object after its publication on the class"
+    from ..common import MUTATING_METHODS
+    pubs = [n for n in walk_own(bs.node) if isinstance(n, ast.Assign) and any(ast.unparse(t) == "spec_cls.__spec_class__" for t in n.targets)
+            and isinstance(n.value, ast.Name)]
+    if len(pubs) != 1:
+        raise AnalysisError(f"C19.PUB: {len(pubs)} publication statements in bootstrap (expected one)")
+    pub = pubs[0]
+    M = pub.value.id
+
+    def root(e):
+        while isinstance(e, (ast.Attribute, ast.Subscript, ast.Call)):
+            e = e.func if isinstance(e, ast.Call) else e.value
+        return e.id if isinstance(e, ast.Name) else None
+    tainted = {M}
+    for n in walk_own(bs.node):                       # loop variables ranging over the metadata's attribute specs
+        if isinstance(n, ast.For) and root(n.iter) == M:
+            tainted |= {x.id for x in ast.walk(n.target) if isinstance(x, ast.Name)}
+    bad = []
+    for n in walk_own(bs.node):
+        if getattr(n, "lineno", 0) <= pub.end_lineno:
+            continue
+        if isinstance(n, (ast.Assign, ast.AugAssign, ast.AnnAssign)):
+            tgts = n.targets if isinstance(n, ast.Assign) else [n.target]
+            for t in tgts:
+                if isinstance(t, (ast.Attribute, ast.Subscript)) and root(t) in tainted:
+                    bad.append((n, f"`{ast.unparse(n)[:60]}`"))
+        if isinstance(n, ast.Call) and isinstance(n.func, ast.Attribute) and n.func.attr in MUTATING_METHODS and root(n.func.value) in tainted:
+            bad.append((n, f"`{ast.unparse(n)[:60]}`"))
+    rep.oblige("C19.PUB", "spec_class.bootstrap", not bad, "; ".join(b for _, b in bad[:3]))
+    for n, b_ in bad[:3]:
+        rep.violate(Violation("C19.PUB", f"C19.PUB|{b_[:60]}", f"spec_class.bootstrap: {b_} changes the metadata after `{ast.unparse(pub)}` published it: a concurrent reader of the class's metadata observes a half-assembled specification",
+                              f"{rel}:{n.lineno}", "spec_class.bootstrap"))
 
     # ---- DIS / IDEM
     rep.rules["C19.DIS"] = "dissolution target and value"
